@@ -62,4 +62,26 @@ def liftStep (n : Nat) (f g cF' cG' : List Int) : List Int × List Int :=
 /-- f⋆G − g⋆F -/
 def ntruLhs (n : Nat) (f g F G : List Int) : List Int := subL (negacyc n f G) (negacyc n g F)
 
+
+/-! the extended Euclid of `math.rs::xgcd` (num-bigint's `/` truncates toward zero: `Int.tdiv`) -/
+theorem xgcd_dec (x r : Int) (h : ¬ r = 0) : (x - Int.tdiv x r * r).natAbs < r.natAbs := by
+  have : x - Int.tdiv x r * r = Int.tmod x r := by rw [Int.tmod_def, Int.mul_comm]
+  rw [this, Int.natAbs_tmod]
+  exact Nat.mod_lt _ (by omega)
+
+/-- the `while r != 0` loop: state (old_r, r, old_s, s, old_t, t) -/
+def xgcdGo (x r os s ot t : Int) : Int × Int × Int :=
+  if h : r = 0 then (x, os, ot) else
+    xgcdGo r (x - Int.tdiv x r * r) s (os - Int.tdiv x r * s) t (ot - Int.tdiv x r * t)
+termination_by r.natAbs
+decreasing_by exact xgcd_dec x r h
+
+/-- `xgcd(a, b)` = (gcd up to sign, u, v) -/
+def xgcd (a b : Int) : Int × Int × Int := xgcdGo a b 1 0 0 1
+
+/-- the n = 1 case of `ntru_solve`: `None` unless the gcd is exactly 1, else (−v·q, u·q) -/
+def ntruBase (a b : Int) : Option (Int × Int) :=
+  let (d, u, v) := xgcd a b
+  if d ≠ 1 then none else some (-v * 12289, u * 12289)
+
 end Falcon.RingZ
